@@ -20,6 +20,15 @@ fn main() {
             }
         }
     }
+    if prop == "GOLDEN" && args[2] == "gen2" {
+        match a5verif::checks::golden::generate2(&args[3]) {
+            Ok(()) => std::process::exit(0),
+            Err(e) => {
+                eprintln!("golden generation failed: {}", e);
+                std::process::exit(2);
+            }
+        }
+    }
     if prop == "C13" && args[2] == "--sched-child" {
         a5verif::checks::purity::sched_child(&args[3], &args[4]);
         std::process::exit(0);
